@@ -67,6 +67,7 @@ ALLOWED_SELF_WRITES = {
     ("bionumpy.variants.mutation_signature", "MutationTypeEncoding.__init__", "h"): "constructor",
     ("bionumpy.encoded_array", "EncodedArray.__setitem__", "data"): "explicit item assignment",
     ("bionumpy.sequence.lookup", "Lookup.__setitem__", "_values"): "explicit item assignment",
+    ("bionumpy.genomic_data.binned_genome", "BinnedGenome.count", "_counts"): "explicit accumulator API: count() adds into the histogram the object allocated in __init__",
 }
 
 PRIVATE_MUTATOR_CALLSITES = [
